@@ -34,7 +34,10 @@ CFG = {
                          "remove_dir_all-shapes:symlink-inside-removed-tree", "remove_dir_all-shapes:fifo-inside-removed-tree",
                          "readdir-shapes:multi-buffer", "readdir-shapes:name-255", "readdir-shapes:non-utf8-name",
                          "create_dir_all:parent-exists", "create_dir_all:len>512", "copy:longer-destination", "copy:short-copies-forced",
-                         "remove_dir_all:symlink-inside-removed-tree", "readdir:multi-buffer", "history:must-succeed"],
+                         "remove_dir_all:symlink-inside-removed-tree", "readdir:multi-buffer", "history:must-succeed",
+                         "rename-misc:rename-non-empty-directory", "rename-misc:rename-replaces", "rename-misc:remove_file-symlink",
+                         "rename-misc:remove_dir", "rename-misc:create_dir", "rename-misc:exists-false", "rename-misc:metadata-existing",
+                         "write-read:write-overwrites", "write-read:read>1page", "history:symlink-inside-removed-tree", "history:multi-buffer"],
     "level_text": "exploration (model-based)",
     "level_note": "random histories + deterministic shape enumerations; not exhaustive over trees or histories",
     "timeout_quick": 600, "timeout_thorough": 3600,
